@@ -14,8 +14,29 @@ when the callee is non-recursive and
     the helper is only spliced in `return helper(...)` position.
 """
 import ast
-import copy
 import itertools
+
+
+class copy:      # noqa: N801 - drop-in for the two functions used below, without following _parent/_module links
+    @staticmethod
+    def deepcopy(node):
+        return clone(node)
+
+
+def clone(node):
+    """Structural copy of an AST (sub)tree: fields and positions only, never the analysis links."""
+    if isinstance(node, list):
+        return [clone(x) for x in node]
+    if not isinstance(node, ast.AST):
+        return node
+    new = node.__class__()
+    for name in node._fields:
+        if hasattr(node, name):
+            setattr(new, name, clone(getattr(node, name)))
+    for name in ('lineno', 'col_offset', 'end_lineno', 'end_col_offset'):
+        if hasattr(node, name):
+            setattr(new, name, getattr(node, name))
+    return new
 
 _counter = itertools.count(1)
 
